@@ -854,6 +854,8 @@ fn check_bool(env: &Env, case: &BoolCase) -> Result<(), CaseErr> {
             let _ = e;
             return Ok(());
         }
+        // a wall-clock limit is no verdict (a loaded or suspended machine hits it too)
+        Err(e) if e.contains("(hang)") => return Err(CaseErr::Reject(format!("inconclusive: {blk} ({md}): {e}"))),
         Err(e) => {
             let kind = if e.starts_with("INCONSISTENT") { "inconsistent-sharing" } else { "protocol-error" };
             return known_or_violation(env, &format!("{blk}:{md}:{kind}"), format!("{blk} ({md}, vector width {}, |x|={}, |y|={}): {e}", case.lanes, case.lx, case.ly), case_json(case));
@@ -1603,6 +1605,8 @@ fn convert(env: &Env, src: &mut Src<'_>) -> CaseResult {
     });
     let got = match res {
         Ok(g) => g,
+        // a wall-clock limit is no verdict (a loaded or suspended machine hits it too)
+        Err(e) if e.contains("(hang)") => return Err(CaseErr::Reject(format!("inconclusive: {e}"))),
         Err(e) => {
             let kind = if e.starts_with("INCONSISTENT") { "inconsistent-sharing" } else { "protocol-error" };
             known_or_violation(env, &format!("convert_to_fp25519:{md}:{kind}"), format!("convert_to_fp25519 ({md}, {bits} bits): {e}"), cj)?;
@@ -1866,6 +1870,8 @@ where
         "column0": cols[0].iter().take(12).map(|v| v.to_string()).collect::<Vec<_>>()});
     let out = match run(seed, inputs) {
         Ok(o) => o,
+        // a wall-clock limit is no verdict (a loaded or suspended machine hits it too)
+        Err(e) if e.contains("(hang)") => return Err(CaseErr::Reject(format!("inconclusive: {e}"))),
         Err(e) => {
             let kind = if e.starts_with("INCONSISTENT") { "inconsistent-sharing" } else { "protocol-error" };
             known_or_violation(env, &format!("aggregate_values:{md}:{kind}"), format!("aggregate_values ({md}, {N} buckets, {tv_bits}->{ov_bits} bits, {rows} rows): {e}"), cj)?;
